@@ -24,6 +24,14 @@ func Register(reg *kernel.Registry) {
 	reg.Serves["C08"] = append(reg.Serves["C08"], "eth")
 	reg.MinProbes["C10"] = []string{"update.accepted", "byz.fork"}
 	reg.Assumptions["C10"] = []string{"Rinkeby chain id (4): the client itself skips difficulty and proof-of-work checks there; PoW mode is not simulated (mining a header costs ~45 s here)", "sampling, not enumeration"}
+	reg.Scenarios["lifecycle"] = LifecycleScenario{}
+	reg.Components["lifecycle"] = [2][]string{
+		{"teleport application (one chain): gov proposal execution (create / upgrade / toggle client, register relayer) through the real gov EndBlocker, xibc client keeper, all four client types' Validate / Initialize / UpgradeState / Status / CheckHeaderAndUpdateState"},
+		{"Tendermint, BSC, Ethereum and TSS counterparties (stubs producing valid states and follow-up headers)", "relayer / TSS account"},
+	}
+	reg.Serves["C18"] = append(reg.Serves["C18"], "lifecycle")
+	reg.Serves["C15"] = append(reg.Serves["C15"], "lifecycle", "ag")
+	reg.MinProbes["C18"] = []string{"installed.create.tm", "installed.create.bsc", "installed.create.eth", "installed.create.tss"}
 	reg.Serves["C09"] = append(reg.Serves["C09"], "bsc")
 	reg.Serves["C08"] = append(reg.Serves["C08"], "bsc")
 	reg.MinProbes["C09"] = []string{"update.accepted"}
